@@ -45,9 +45,15 @@ def determinism(pids, n):
                 A.update(d)
             for d in b:
                 B.update(d)
-        mism = [i for i in A if A[i] != B.get(i)]
-        print(f"determinism {pid}: {len(A)} seeds x 2 processes (PYTHONHASHSEED 0 vs 987654321): {len(mism)} mismatches")
-        bad += len(mism)
+        with cf.ThreadPoolExecutor(8) as ex:
+            C = {}
+            for d in ex.map(lambda c: _digests_subprocess(pid, c, 0), chunks):
+                C.update(d)
+        mism = [i for i in A if A[i][1] != (B.get(i) or [None, None])[1]]
+        mism0 = [i for i in A if A[i][0] != (C.get(i) or [None, None])[0]]
+        print(f"determinism {pid}: {len(A)} seeds: fresh interpreter, same PYTHONHASHSEED, full event log: {len(mism0)} mismatches; "
+              f"PYTHONHASHSEED 0 vs 987654321, log without interleaving-dependent entries: {len(mism)} mismatches")
+        bad += len(mism) + len(mism0)
     return bad
 
 
@@ -64,7 +70,7 @@ def main(deep=False, smoke=False):
                 runner._prop_mod = None
                 c1, v1, d1, ch1 = runner.execute(pid, "quick", seed=rs)
                 c2, v2, d2, ch2 = runner.execute(pid, "quick", seed=rs)
-                if runner.digest_of([c1.log, ch1.record]) != runner.digest_of([c2.log, ch2.record]):
+                if runner.run_digests(c1, ch1, v1, d1) != runner.run_digests(c2, ch2, v2, d2):
                     print(f"selftest: {pid} run {i} not deterministic", file=sys.stderr)
                     return 2
         print(f"selftest smoke ok: {', '.join(pids)}")
